@@ -73,6 +73,9 @@ class Report:
             lines.append(f"KNOWN-FINDING: property={self.prop} {i.rule} {i.loc} {k.get('what', i.message)}")
         out_dir = os.path.join(VERIF, "out", "replay")
         os.makedirs(out_dir, exist_ok=True)
+        for old in os.listdir(out_dir):
+            if old.startswith(f"{self.prop}-") and old.endswith(".json"):
+                os.remove(os.path.join(out_dir, old))
         for n, i in enumerate(unlisted):
             path = os.path.join(out_dir, f"{self.prop}-{n}.json")
             with open(path, "w") as f:
